@@ -4,6 +4,8 @@ coq/gen/Gen_fmtbuf.v:
     clear_policy : policy        ClearAfterOnly | ClearBefore | ClearGuard   (BufferModel.v explains them)
     tee_runs_both : bool         `impl_tee!` calls BOTH writers of a `Tee` before propagating an error
                                  (true) or returns at the first error (false)   (WriterModel.tee_apply)
+    pretty_root_falls_back : bool  Pretty's own span lookup `event.parent().and_then(..).or_else(lookup_current)` (true: an
+                                 explicit-root event is printed inside the thread's current spans) or `ctx.parent_span()` (false)
     gen_unrecognised : list string
 
 The model in Fmt/BufferModel.v hard-wires the rest of the protocol (thread-local `RefCell<String>`,
@@ -21,6 +23,9 @@ from rsparse import strip_comments, find_blocks, fns_in, norm, coq_str  # noqa: 
 
 FILE = "tracing-subscriber/src/fmt/fmt_subscriber.rs"
 WFILE = "tracing-subscriber/src/fmt/writer.rs"
+FMOD = "tracing-subscriber/src/fmt/format/mod.rs"
+FPRETTY = "tracing-subscriber/src/fmt/format/pretty.rs"
+CTXFILE = "tracing-subscriber/src/subscribe/context.rs"
 
 
 def on_event_body(src):
@@ -172,10 +177,71 @@ def analyse_writer(repo):
     return both, unrec
 
 
+def fn_body_in_impl(src, impl_re, name):
+    for _, b, _, _ in find_blocks(src, impl_re):
+        f = fns_in(b)
+        if name in f and f[name][1] is not None:
+            return norm(f[name][1])
+    return None
+
+
+def analyse_scope(repo):
+    """which spans each text formatter walks: the EVENT's scope (explicit parent first, nothing for an explicit root,
+    else the current span) -- Context::event_span / event_scope, FmtContext::event_scope / parent_span, and their use in
+    Format<Full>, Format<Compact>, Format<Pretty>; no sanitising pass between the formatter and the buffer"""
+    unrec = []
+    ctxs = strip_comments(open(os.path.join(repo, CTXFILE)).read())
+    es = fn_body_in_impl(ctxs, r"impl<'a, C> Context<'a, C>[^{]*\{", "event_span")
+    if es != "if event.is_root() { None } else if event.is_contextual() { self.lookup_current() } else { event.parent().and_then(|id| self.span(id)) }":
+        unrec.append("Context::event_span is not `root -> None, contextual -> lookup_current, explicit -> span(parent)`: `%s`" % (es or "not found")[:120])
+    esc = fn_body_in_impl(ctxs, r"impl<'a, C> Context<'a, C>[^{]*\{", "event_scope")
+    if esc != "Some(self.event_span(event)?.scope())":
+        unrec.append("Context::event_scope is not `Some(self.event_span(event)?.scope())`")
+    subs = strip_comments(open(os.path.join(repo, FILE)).read())
+    for name, want in (("parent_span", "self.ctx.event_span(self.event)"), ("event_scope", "self.ctx.event_scope(self.event)")):
+        b = fn_body_in_impl(subs, r"impl<C, N> FmtContext<'_, C, N>[^{]*\{", name)
+        if b != want:
+            unrec.append("FmtContext::%s is not `%s`: `%s`" % (name, want, (b or "not found")[:80]))
+    # make_ctx hands the formatter the event itself
+    mk = fn_body_in_impl(subs, r"impl<C, N, E, W> Subscriber<C, N, E, W>[^{]*\{", "make_ctx")
+    if mk is None or not re.fullmatch(r"FmtContext \{ ctx, fmt_fields: &self\.fmt_fields, event, \}", mk):
+        unrec.append("Subscriber::make_ctx is not `FmtContext { ctx, fmt_fields: &self.fmt_fields, event }`")
+    mods = strip_comments(open(os.path.join(repo, FMOD)).read())
+    full = fn_body_in_impl(mods, r"impl<C, N, T> FormatEvent<C, N> for Format<Full, T>[^{]*\{", "format_event")
+    if full is None or full.count("ctx.event_scope()") != 1 or "scope.from_root()" not in full or "lookup_current" in full or "current_span" in full:
+        unrec.append("Format<Full>::format_event does not walk `ctx.event_scope()` root first")
+    comp = fn_body_in_impl(mods, r"impl<C, N, T> FormatEvent<C, N> for Format<Compact, T>[^{]*\{", "format_event")
+    if comp is None or comp.count("ctx.event_scope().into_iter().flat_map(Scope::from_root)") != 1 or "lookup_current" in comp or "current_span" in comp:
+        unrec.append("Format<Compact>::format_event does not walk `ctx.event_scope()` root first")
+    for nm, body in (("Full", full), ("Compact", comp)):
+        if body is not None and body.count("ctx.format_fields(writer.by_ref(), event)") != 1:
+            unrec.append("Format<%s>::format_event does not format the event's fields exactly once with the configured field formatter" % nm)
+    prs = strip_comments(open(os.path.join(repo, FPRETTY)).read())
+    pretty = fn_body_in_impl(prs, r"impl<C, N, T> FormatEvent<C, N> for Format<Pretty, T>[^{]*\{", "format_event")
+    fallback = True
+    if pretty is None:
+        unrec.append("Format<Pretty>::format_event not found")
+    else:
+        own = "let span = event .parent() .and_then(|id| ctx.span(id)) .or_else(|| ctx.lookup_current());"
+        via = "let span = ctx.parent_span();"
+        if own in pretty and pretty.count("lookup_current") == 1:
+            fallback = True
+        elif via in pretty and "lookup_current" not in pretty:
+            fallback = False
+        else:
+            unrec.append("Format<Pretty>::format_event: span lookup is neither its own `event.parent()..or_else(lookup_current)` nor `ctx.parent_span()`")
+        if "let scope = span.into_iter().flat_map(|span| span.scope());" not in pretty or "from_root" in pretty:
+            unrec.append("Format<Pretty>::format_event does not walk the span's scope leaf first")
+        if pretty.count("event.record(&mut v);") != 1:
+            unrec.append("Format<Pretty>::format_event does not record the event's fields exactly once")
+    return fallback, unrec
+
+
 def main(repo, out):
     policy, unrec = analyse(repo)
     both, unrec_w = analyse_writer(repo)
-    unrec = unrec + unrec_w
+    pretty_fallback, unrec_s = analyse_scope(repo)
+    unrec = unrec + unrec_w + unrec_s
     lines = [
         "(** GENERATED by translators/fmtbuf.py from %s (fn on_event) -- do not edit. *)" % FILE,
         "From Coq Require Import String List.",
@@ -188,6 +254,9 @@ def main(repo, out):
         "",
         "(** %s: `impl_tee!` (behind every io::Write method of `Tee`) calls both writers, then propagates an error. *)" % WFILE,
         "Definition tee_runs_both : bool := %s." % ("true" if both else "false"),
+        "",
+        "(** %s: Format<Pretty> looks its span up itself and falls back to the current span for an explicit root. *)" % FPRETTY,
+        "Definition pretty_root_falls_back : bool := %s." % ("true" if pretty_fallback else "false"),
         "",
         "Definition gen_unrecognised : list string := [%s]." % "; ".join(coq_str(u) for u in unrec),
         "",
